@@ -148,10 +148,13 @@ fn zero_cut() -> CutSpec {
 }
 
 fn header_with(seq: u16, supp: u16, ptype: u16, dop: u8, pw: u8) -> vcp::Header {
+    // every field that is not under test carries a value derived from the others (never a constant zero), so
+    // that an accessor that consults a neighbouring field is exposed
+    let mix = seq.rotate_left(3) ^ supp.rotate_left(7) ^ ptype.rotate_left(11) ^ ((dop as u16) << 8 | pw as u16) ^ 0x5A5A;
     vcp::Header {
-        message_size: 0, pattern_type: ptype, pattern_number: 0, number_of_elevation_cuts: 0, version: 0,
-        clutter_map_group_number: 0, doppler_velocity_resolution: dop, pulse_width: pw, reserved_1: 0,
-        vcp_sequencing: seq, vcp_supplemental_data: supp, reserved_2: 0,
+        message_size: !mix, pattern_type: ptype, pattern_number: mix.rotate_left(5), number_of_elevation_cuts: (mix % 52).max(1), version: (mix >> 3) as u8 | 1,
+        clutter_map_group_number: (mix >> 7) as u8 | 1, doppler_velocity_resolution: dop, pulse_width: pw, reserved_1: 0xDEAD_0000 | mix as u32,
+        vcp_sequencing: seq, vcp_supplemental_data: supp, reserved_2: mix | 1,
     }
 }
 
